@@ -41,7 +41,7 @@ CHECKS = {
          'All histories over a small alphabet (budgets 0-5) and random binary64 histories with ties are run through the real loop (tagged stubs) and compared bit-exactly with the model.',
          'Trusted: Coq kernel + vm_compute (PrimFloat primitives as the model of Python float comparison/multiplication), scripted stubs. NaN scores excluded as the property states.'),
  'C09': ('DESIGN.md §4 C09',
-         'Coq proofs: stack-machine = structural path table (induction with a stack measure); softmax of log-sigmoid sums = gate products summing to 1, the weight computation exactly as coded (left fold, clamp at -50, stable shift, tiny-clamped normaliser) equals the gate products whenever no leaf is below e^-50 and is within an explicit bound otherwise, T->0 bound (Reals); rational truncation lemmas + the soft-routing op sequence re-translated from the source each run and proved equal to the models (softops) + interval-certified weight correspondence + vm_compute relation on observed truncations',
+         'Coq proofs: stack-machine = structural path table (induction with a stack measure); softmax of log-sigmoid sums = gate products summing to 1, end-to-end theorem (weights as coded, any top-weighted active set, renormalisation, aggregation: distribution, convex hull, convergence to hard routing for every keep fraction and cap); the weight computation exactly as coded (left fold, clamp at -50, stable shift, tiny-clamped normaliser) equals the gate products whenever no leaf is below e^-50 and is within an explicit bound otherwise, T->0 bound (Reals); rational truncation lemmas + the soft-routing op sequence re-translated from the source each run and proved equal to the models (softops) + interval-certified weight correspondence + vm_compute relation on observed truncations',
          'Theorems for every tree: cache builder = preorder/left-to-right table; weights = product of gate sigmoids, positive, sum to one; renormalised masked weights lie on the simplex so outputs are in the convex hull; active set is a top-weighted prefix, smallest reaching keep, within the cap; hard leaf weight >= 1 - D exp(-margin/T). '
          'One-hot probe leaves expose the weight matrix of the real code; weights are certified against the real-valued model by `interval`, truncations by a rational relation in Coq, leaf invocation sets and T->0 by oracle.',
          'Trusted: Coq kernel, vm_compute, Interval tactic, real-number axioms of the standard library, probe leaves. float32 tolerance 5e-6+2e-5 w; cut-off ties within 4e-6 accepted either way.'),
@@ -102,7 +102,7 @@ CHECKS = {
          'partial: that torch.func.jacrev returns the partial derivatives of the closure it is given is PyTorch\'s contract (checked numerically per instance — this is how the multi-output cdist/vmap defect was found). Trusted: Coq kernel, Coquelicot, Interval, real-number axioms, mpmath, the gradops translator.'),
 
  'C14': ('DESIGN.md §4 C14',
-         'Coq proofs over Q (entrywise matrix algebra on lists) of the AGOP accumulation model + refutation witness for centred accumulation + vm_compute of the model on the gradients the implementation itself returns',
+         'Coq proofs over Q (entrywise matrix algebra on lists) of the AGOP accumulation model + refutation witness for centred accumulation + update_M / fit_M and the per-batch reductions re-translated from the source each run (agopops, gradops) + vm_compute of the model on the gradients the implementation itself returns',
          'Theorems for every number of points/outputs/dimension and every batch size: the accumulated matrix is the sum of gradient outer products, independent of the batch size (no centring), symmetric, positive semi-definite (x^T M x = sum (g.x)^2), diagonal mode = its diagonal, normalised entries <= 1. With centring ON the statement is refuted in the model (witness) and on the implementation (known finding). '
          'fit_M(inplace=False) of small fitted leaves (all CPU kernels, diag/full, 1-3 outputs, batch sizes 1..n+5) is compared with the Q model evaluated in Coq on the implementation\'s own get_function_grads output; root squares back; agop_best_model is the AGOP of the returned predictor.',
          'partial: matrix root (SVD) is a contract (checked numerically), gradient values are C04; the 1e-8 diagonal ridge that the matrix-power routine adds in place is accepted with or without (the property does not ask for it); get_agop / get_agop_diag reductions are re-translated from the source each run (gradops). KNOWN FINDING: center_grads=True is batch-size dependent.'),
@@ -114,7 +114,7 @@ CHECKS = {
          'partial: that a whole fit commutes with scaling uses the solver/median contracts; float effects (eps mask, 1e-30) are bounded by tolerances. Trusted: Coq kernel, vm_compute, real-number axioms, float64 distance recomputation.'),
 
  'C15': ('DESIGN.md §4 C15',
-         'Coq proofs (Reals, lists) of the block decomposition of distances and of the one-hot table lookup + block-AGOP entry theorem (Q) + differential fast vs dense vs mpmath closed form + interval-certified fast-path entries',
+         'Coq proofs (Reals, lists) of the block decomposition of distances, the one-hot table lookup, and the theorem that the fast path as coded equals the dense kernel with the block-diagonal transform on the one-hot rows (any number of columns/groups/levels) + the three categorical paths re-translated from the source each run by symbolic execution and proved equal to those models (catops) + block-AGOP entry theorem (Q) + differential fast vs dense vs mpmath closed form + interval-certified fast-path entries',
          'Theorems for any number of blocks / levels / transform rows: the squared L2 distance (resp. sum of |.|^p) of block-structured rows is the sum over blocks; a one-hot row times a full block matrix is the corresponding row of the transformed identity codes, so a group contributes the table entry D_g[a,b]; an AGOP entry of the column-restricted gradients is the dense entry. '
          'get_kernel_matrix / get_agop with and without set_categorical_indices are compared on one-hot rows for L2, Lpq (every boundary (p,q)) and product kernels, interleaved layouts, transforms none/diagonal/block-diagonal, and with the documented closed form; L2 fast-path entries are certified against the Coq dense model by `interval`.',
          'Trusted: Coq kernel, Interval, real-number axioms, mpmath. The product kernel\'s categorical path needs a harness-side batch-size stub on CPU (it queries CUDA unconditionally): observation recorded in DESIGN.md.'),
